@@ -107,6 +107,45 @@ def _carriers(prog, pat):
     return seen
 
 
+def value_coercions(prog, rep, only=None):
+    rep.rule("C13.V", "Value::{into_,as_}{boolean,integer,string/str,list,graph_node_ref,syntax_node_ref}: exactly the named variant yields Ok(payload), every other variant the matching Expected… error")
+    COERCE = {"into_boolean": ("Boolean", "ExpectedBoolean"), "as_boolean": ("Boolean", "ExpectedBoolean"), "into_integer": ("Integer", "ExpectedInteger"), "as_integer": ("Integer", "ExpectedInteger"),
+              "into_string": ("String", "ExpectedString"), "as_str": ("String", "ExpectedString"), "into_list": ("List", "ExpectedList"), "as_list": ("List", "ExpectedList"),
+              "into_graph_node_ref": ("GraphNode", "ExpectedGraphNode"), "as_graph_node_ref": ("GraphNode", "ExpectedGraphNode"),
+              "into_syntax_node_ref": ("SyntaxNode", "ExpectedSyntaxNode"), "as_syntax_node_ref": ("SyntaxNode", "ExpectedSyntaxNode")}
+    variants = {v["name"] for v in prog.adts["tsg::graph::Value"]["variants"]}
+    ncv = 0
+    for nm, (variant, err) in sorted(COERCE.items()):
+        if only is not None and nm not in only:
+            continue
+        fl = [g for g in prog.shape_fns() if g.name == nm and g.self_path == "tsg::graph::Value" and g.trait is None]
+        if len(fl) != 1:
+            rep.violation("C13.V", "anchor-lost:Value::%s" % nm, "", "not found")
+            continue
+        g = fl[0]
+        gb, gtr = g.body, Tracer(g.body)
+        explicit = set()
+        for b in sorted(gb.reachable()):
+            for e_ in switch_edges(gb, gtr, b):
+                if e_.variant in variants and "arg:self" in canon(e_.cond):
+                    explicit.add(e_.variant)
+        errs = {st["rv"].get("variant") for h in [g] + prog.all_closures_under(g) for b in sorted(h.body.reachable()) for st in h.body.blocks[b]["stmts"]
+                if st["k"] == "assign" and st["rv"]["k"] == "aggregate" and st["rv"].get("adt") == "tsg::execution::error::ExecutionError"}
+        ncv += 1
+        if not explicit and not errs:
+            # pure delegation to the sibling coercion of the same variant (`into_x(self) = self.as_x().cloned()` or the reverse): the
+            # sibling is checked on its own; here only the delegation target and the absence of any other decision matter
+            sib = {k for k, (v2, _e2) in COERCE.items() if v2 == variant and k != nm}
+            dels = [callee_fn(t)["def"].rsplit("::", 1)[-1] for _b, t in gb.calls() if is_callee(t, r"<impl tsg::graph::Value>::\w+$|tsg::graph::Value::\w+$")]
+            sw = [b for b in sorted(gb.reachable()) if gb.term(b)["k"] == "switch"]
+            if len(dels) == 1 and dels[0] in sib and "arg:self" in canon(gtr.operand(next(t for _b, t in gb.calls() if callee_fn(t)["def"].endswith("::" + dels[0]))["args"][0])) and not sw:
+                rep.ok("C13.V", "Value::%s" % nm, g.loc(), "delegates to Value::%s (checked on its own)" % dels[0])
+                continue
+        rep.check(explicit == {variant} and errs == {err}, "C13.V", "Value::%s" % nm, g.loc(), "%s → Ok, anything else → %s" % (variant, err),
+                  "Value::%s accepts %s and fails with %s: a parameter of another type is no longer rejected" % (nm, sorted(explicit), sorted(errs)))
+    return ncv
+
+
 def run(prog, rep):
     rep.rule("E8.f", "registered stdlib names = documented function headings; documented arity class = extracted parameter protocol")
     table = stdlib_table(prog)
@@ -248,39 +287,7 @@ def run(prog, rep):
         alt = [callee_fn(t)["def"] for b, t in impls["replace"].body.calls() if is_callee(t, r"str::<impl str>::(replace|replacen|replace_range)$", r"regex::Regex::(replace|replacen)$")]
         rep.check(not alt, "C13.CORE", "replace :: no other replacement primitive", impls["replace"].loc(), "only Regex::replace_all", "replace also uses %s (different treatment of `$` in the replacement)" % alt)
     # ---- V: the value coercions every parameter goes through accept exactly their own variant
-    rep.rule("C13.V", "Value::{into_,as_}{boolean,integer,string/str,list,graph_node_ref,syntax_node_ref}: exactly the named variant yields Ok(payload), every other variant the matching Expected… error")
-    COERCE = {"into_boolean": ("Boolean", "ExpectedBoolean"), "as_boolean": ("Boolean", "ExpectedBoolean"), "into_integer": ("Integer", "ExpectedInteger"), "as_integer": ("Integer", "ExpectedInteger"),
-              "into_string": ("String", "ExpectedString"), "as_str": ("String", "ExpectedString"), "into_list": ("List", "ExpectedList"), "as_list": ("List", "ExpectedList"),
-              "into_graph_node_ref": ("GraphNode", "ExpectedGraphNode"), "as_graph_node_ref": ("GraphNode", "ExpectedGraphNode"),
-              "into_syntax_node_ref": ("SyntaxNode", "ExpectedSyntaxNode"), "as_syntax_node_ref": ("SyntaxNode", "ExpectedSyntaxNode")}
-    variants = {v["name"] for v in prog.adts["tsg::graph::Value"]["variants"]}
-    ncv = 0
-    for nm, (variant, err) in sorted(COERCE.items()):
-        fl = [g for g in prog.shape_fns() if g.name == nm and g.self_path == "tsg::graph::Value" and g.trait is None]
-        if len(fl) != 1:
-            rep.violation("C13.V", "anchor-lost:Value::%s" % nm, "", "not found")
-            continue
-        g = fl[0]
-        gb, gtr = g.body, Tracer(g.body)
-        explicit = set()
-        for b in sorted(gb.reachable()):
-            for e_ in switch_edges(gb, gtr, b):
-                if e_.variant in variants and "arg:self" in canon(e_.cond):
-                    explicit.add(e_.variant)
-        errs = {st["rv"].get("variant") for h in [g] + prog.all_closures_under(g) for b in sorted(h.body.reachable()) for st in h.body.blocks[b]["stmts"]
-                if st["k"] == "assign" and st["rv"]["k"] == "aggregate" and st["rv"].get("adt") == "tsg::execution::error::ExecutionError"}
-        ncv += 1
-        if not explicit and not errs:
-            # pure delegation to the sibling coercion of the same variant (`into_x(self) = self.as_x().cloned()` or the reverse): the
-            # sibling is checked on its own; here only the delegation target and the absence of any other decision matter
-            sib = {k for k, (v2, _e2) in COERCE.items() if v2 == variant and k != nm}
-            dels = [callee_fn(t)["def"].rsplit("::", 1)[-1] for _b, t in gb.calls() if is_callee(t, r"<impl tsg::graph::Value>::\w+$|tsg::graph::Value::\w+$")]
-            sw = [b for b in sorted(gb.reachable()) if gb.term(b)["k"] == "switch"]
-            if len(dels) == 1 and dels[0] in sib and "arg:self" in canon(gtr.operand(next(t for _b, t in gb.calls() if callee_fn(t)["def"].endswith("::" + dels[0]))["args"][0])) and not sw:
-                rep.ok("C13.V", "Value::%s" % nm, g.loc(), "delegates to Value::%s (checked on its own)" % dels[0])
-                continue
-        rep.check(explicit == {variant} and errs == {err}, "C13.V", "Value::%s" % nm, g.loc(), "%s → Ok, anything else → %s" % (variant, err),
-                  "Value::%s accepts %s and fails with %s: a parameter of another type is no longer rejected" % (nm, sorted(explicit), sorted(errs)))
+    ncv = value_coercions(prog, rep)
     rep.floor("C13.V", ncv, 12, "value coercions")
     # ---- A: arithmetic on DSL integers
     rep.rule("C13.A", "arithmetic on DSL integers (u32) in stdlib functions is checked: no `+`/`-`/`*` with a debug overflow assertion or silent wrap-around")
@@ -358,7 +365,7 @@ def run(prog, rep):
                                 for st in body.blocks[x]["stmts"]:
                                     if st["k"] == "assign" and st["rv"]["k"] == "use" and st["rv"]["op"].get("k") == "const" and st["rv"]["op"].get("v") in ("true", "false"):
                                         consts.append(st["rv"]["op"]["v"])
-                                    if st["k"] == "assign" and st["rv"]["k"] == "aggregate" and st["rv"].get("variant") == "Boolean":
+                                    if st["k"] == "assign" and st["rv"]["k"] == "aggregate" and st["rv"].get("variant") in ("Boolean", "Some", "Ok"):
                                         consts += [o.get("v") for o in st["rv"]["ops"] if o.get("k") == "const" and o.get("v") in ("true", "false")]
                                 tx = body.term(x)
                                 if tx["k"] == "call" and is_callee(tx, r"convert::(Into::into|From::from)$"):
